@@ -41,6 +41,18 @@ def f_check(plan, dq=150, dt=900):
 
 
 A = ["harness/engine_a.c"] + COMMON
+H = ["harness/engine_h.c"] + COMMON
+RULE_H = ("explicit-state search over abstract registry states (sequence of live configurations in registry order, <= 4 slots, counter preset or not): every state is "
+          "built by its canonical history in a child forked from a pristine process and every operation of the alphabet (create x5, failed create x3, destroy slot, use slot, "
+          "7 error exits per slot, counter preset) is applied to it as real API calls; invariants of the set model are checked after each call, self-loops must leave the "
+          "concrete observation (registry walk, ledger, table pointer) identical, and a state reached by an operation must look exactly like the same state built canonically; "
+          "plus an unmerged enumeration of all operation sequences over a 9-letter alphabet up to the stated depth; states = transitions explored (one per case), "
+          "non-trivial = state-changing transition or an operation on a non-empty registry")
+ASSUME_H = ["<= 4 live instances; configurations rs_vand (2,1) (3,2), flat_xor_hd (3,3,3), isa_l_rs_vand (2,1) via the reference plug-in, null (2,1)",
+            "descriptors are opaque tokens: states are merged up to descriptor renaming (the counter preset is part of the state); the unmerged sequence enumeration cross-checks this",
+            "allocation failure is not injected"]
+C14_SITES = r"descriptor-not-unique|registry-differs-from-model|dead-descriptor-accepted|live-instance-unusable|history-dependent-output|bad-create-succeeded|create-failed|destroy-failed|zero-descriptor|failed-create-left-something|same-state-different-observation|self-loop-changed-state|tables-not-released|registry-not-empty|crash|signal-|asan-|hang"
+C16_SITES = r":leak$|free-of-unowned-block|tables-not-released|registry-not-empty|failed-create-left-something|same-state-different-observation|crash|signal-|asan-|hang"
 CHECKS = {
     "C01": s_check("c01", opts={"quick": {"isa_n": 12}}),
     "C02": s_check("c02"),
@@ -64,6 +76,25 @@ CHECKS = {
             "assumptions": ["NULL *elements* inside a fragment array and out-of-range indexes inside fragments_needed's lists are not in the alphabet (the statement names neither)",
                             "a fragment_len >= 80 that is smaller than the real fragments is not in the alphabet (recorded as an out-of-scope observation in DESIGN.md 9)",
                             "allocation failure is not injected", "Jerasure, SHSS and libphazr are not installed: their ids are exercised only up to the 'backend not available' refusal"]},
+    "C14": {"runs": [{"name": "states", "plan": "states", "srcs": H, "san": "asan", "opts": {"quick": {"slots": 4}, "thorough": {"slots": 4}}, "only_sites": C14_SITES},
+                     {"name": "seq", "plan": "seq", "srcs": H, "san": "asan", "opts": {"quick": {"depth": 5}, "thorough": {"depth": 7}}, "only_sites": C14_SITES}],
+            "level": "model_checking", "deadline": {"quick": 150, "thorough": 1500}, "rule": RULE_H, "assumptions": ASSUME_H},
+    "C16": {"runs": [{"name": "states", "plan": "states", "srcs": H, "san": "asan", "opts": {"quick": {"slots": 3}, "thorough": {"slots": 4}}, "only_sites": C16_SITES},
+                     {"name": "seq", "plan": "seq", "srcs": H, "san": "asan", "opts": {"quick": {"depth": 4}, "thorough": {"depth": 6}}, "only_sites": C16_SITES},
+                     {"name": "c16s", "plan": "c16s", "srcs": S, "san": "asan"}],
+            "level": "model_checking", "deadline": {"quick": 150, "thorough": 1500},
+            "rule": RULE_H + "; plus a sweep over all 496 RS + 38 XOR + 2x496 ISA-L shapes: encode, decode (4 erasure sets, unaligned inputs), reconstruct every index, the cleanup calls, destroy - the ledger of library allocations must be back at its baseline",
+            "assumptions": ASSUME_H + ["leak = the exact ledger of the library's own allocations (link-time --wrap) differs from its value before the operation; use-after-free / overflow = AddressSanitizer report"]},
+    "C17": {"runs": [{"name": "faults", "plan": "faults", "srcs": ["harness/engine_x.c"] + COMMON, "san": "asan"}],
+            "level": "fault_enumeration", "deadline": {"quick": 150, "thorough": 900},
+            "rule": ("a tap on the backend operation table makes the n-th backend call (init, encode, decode, reconstruct, fragments_needed) of a scripted workload "
+                     "(create, encode, decode with unaligned inputs, reconstruct data, fragments_needed, encode, decode two missing, reconstruct parity, destroy) report failure: "
+                     "all runs with 0 faults, every single position, every pair of positions (thorough: every triple); each faulted public call must return < 0 with the ledger "
+                     "exactly as before the call and no cleanup call made, is then repeated, and every later output must equal the fault-free run's; "
+                     "non-trivial = at least one injected fault fired"),
+            "assumptions": ["workload of about a dozen backend calls per configuration: rs_vand (4,2), flat_xor_hd (5,5,3), isa_l_rs_vand (4,2), isa_l_rs_cauchy (3,3), null (2,1) (+3 in thorough)",
+                            "a backend 'failure' is a negative / NULL return of the operation-table entry; failures inside the plug-in's primitives (matrix inversion) are C19's subject",
+                            "allocation failure is not injected"]},
     "C19": {"runs": [
         {"name": "c19rt", "plan": "c19rt", "srcs": S, "san": "asan", "opts": {"quick": {"ex_n": 10, "st_lens": 2}}},
         {"name": "c19rc", "plan": "c19rc", "srcs": S, "san": "asan", "opts": {"quick": {"ex_n": 8, "st_lens": 1, "ex_lens": 2, "max_n": 16}}},
